@@ -325,6 +325,10 @@ def r_helpers(ctx, model):
         try:
             out, reg, ref, f = fold_helper(ctx, model, method)
         except RaisedV as e:
+            if e.exc_name in ("InputAssumption", "IntegerDtype"):
+                if not e.where:
+                    e.where = f"{model.mods[MG].rel}:{model.func(f'{MG}:{name}').lineno}"
+                raise           # a finding with its own wording (wrong / raising for part of the admissible inputs): reported by the driver
             ref = f"{MG}:{name}"
             f = model.func(ref)
             w = model.where(ref, f)
